@@ -831,9 +831,11 @@ class BiproportionalEvaluator:
                 if isinstance(district, votelib.evaluate.core.Tie):
                     # Tie on evaluation start, select an arbitrary district
                     # of the tied.
-                    sel_district = list(sorted(district))[0]
-                    solution[sel_district].setdefault(party, 0)
-                    solution[sel_district][party] += n_district_party_seats
+                    for sel_district in list(sorted(district))[
+                        :n_district_party_seats
+                    ]:
+                        solution[sel_district].setdefault(party, 0)
+                        solution[sel_district][party] += 1
                 else:
                     solution[district][party] = n_district_party_seats
         return solution
